@@ -37,6 +37,7 @@ macro_rules! dispatch {
             "C03" => $f::<props::hist::C03>($($arg),*),
             "C04" => $f::<props::c04::C04>($($arg),*),
             "C16" => $f::<props::c16::C16>($($arg),*),
+            "C10" => $f::<props::c10::C10>($($arg),*),
             "C14" => $f::<props::c14::C14>($($arg),*),
             "C06" => $f::<props::hist::C06>($($arg),*),
             "C09" => $f::<props::hist::C09>($($arg),*),
